@@ -123,6 +123,13 @@ func openStorage(dir string, opt Options) (*storage, error) {
 	if s.log, err = log.Open(filepath.Join(dir, "log"), 0700, logOpt); err != nil {
 		return nil, err
 	}
+	if s.log.LastIndex() < s.snaps.index {
+		// crashed after a snapshot was installed and before (or while) the log
+		// was reset to it: what is left of the log is a stale prefix
+		if err = s.log.Reset(s.snaps.index); err != nil {
+			return nil, err
+		}
+	}
 	if s.log.Count() > 0 {
 		data, err := s.log.Get(s.log.LastIndex())
 		if err != nil {
